@@ -2,10 +2,17 @@ use crate::{coercion, ChainPoint, PParams, DEFAULT_EXTRA_FEES};
 use tx3_tir::model::v1beta0 as tir;
 use tx3_tir::reduce::Error;
 
-pub fn eval_size_fees(tx: &[u8], pparams: &PParams, extra_fees: Option<u64>) -> u64 {
-    tx.len() as u64 * pparams.min_fee_coefficient
-        + pparams.min_fee_constant
-        + extra_fees.unwrap_or(DEFAULT_EXTRA_FEES)
+pub fn eval_size_fees(
+    tx: &[u8],
+    pparams: &PParams,
+    extra_fees: Option<u64>,
+) -> Result<u64, tx3_tir::compile::Error> {
+    u64::try_from(tx.len())
+        .ok()
+        .and_then(|size| size.checked_mul(pparams.min_fee_coefficient))
+        .and_then(|fee| fee.checked_add(pparams.min_fee_constant))
+        .and_then(|fee| fee.checked_add(extra_fees.unwrap_or(DEFAULT_EXTRA_FEES)))
+        .ok_or_else(|| tx3_tir::compile::Error::CoerceError("fee".to_string(), "u64".to_string()))
 }
 
 pub fn slot_to_time(slot: i128, cursor: &ChainPoint) -> Option<i128> {
